@@ -49,6 +49,20 @@ fn (p: &'Pub) SetY(v: i32) {
     p.y += 1;
     p.y++;
 }
+
+type Dup struct { .Val: i32, .cnt: i32 };
+
+fn MkDup() -> Dup {
+    return { .Val = 1, .cnt = 2 } as Dup;
+}
+
+fn (d: &Dup) cnt() -> i32 {
+    return d.cnt;
+}
+
+fn (d: &Dup) Val() -> i32 {
+    return d.Val;
+}
 `
 
 type c12Shape struct {
@@ -263,22 +277,26 @@ func c12Cases() []c12Case {
 			{"shared-borrow", "", "let r: &i32 = &p.FIELD;"},
 			{"mut-borrow", "", "let r: &'i32 = &'p.FIELD;"},
 			{"condition", "", "if p.FIELD > 0 {\n        takeI(1);\n    }"},
-			{"through-ref-param", "fn peek(q: &" + al + "::Pub) -> i32 {\n    return q.FIELD;\n}\n", "let a := peek(&p);"},
-			{"through-mut-ref-param", "fn poke(q: &'" + al + "::Pub) {\n    q.FIELD = 7;\n}\n", "poke(&'p);"},
-			{"array-element-field", "", "let arr: [1]" + al + "::Pub = [" + al + "::MkPub()];\n    let a := arr[0].FIELD;"},
+			{"through-ref-param", "fn peek(q: &" + al + "::TYPE) -> i32 {\n    return q.FIELD;\n}\n", "let a := peek(&p);"},
+			{"through-mut-ref-param", "fn poke(q: &'" + al + "::TYPE) {\n    q.FIELD = 7;\n}\n", "poke(&'p);"},
+			{"array-element-field", "", "let arr: [1]" + al + "::TYPE = [" + al + "::MKFN()];\n    let a := arr[0].FIELD;"},
 			// inside a method of an unrelated local type, through a name that shadows the receiver
-			{"method-closure-param-shadows-receiver", "fn (h: &Holder) viaClosure(o: " + al + "::Pub) -> i32 {\n    let f := fn(h: " + al + "::Pub) -> i32 {\n        return h.FIELD;\n    };\n    return f(o);\n}\n", "let a := 1;"},
-			{"method-nested-let-shadows-receiver", "fn (h: &Holder) viaBlock(o: " + al + "::Pub) -> i32 {\n    if o.X > -100 {\n        let h := o;\n        return h.FIELD;\n    }\n    return 0;\n}\n", "let a := 1;"},
-			{"method-non-receiver-param", "fn (h: &Holder) viaParam(o: " + al + "::Pub) -> i32 {\n    return o.FIELD;\n}\n", "let a := 1;"},
+			{"method-closure-param-shadows-receiver", "fn (h: &Holder) viaClosure(o: " + al + "::TYPE) -> i32 {\n    let f := fn(h: " + al + "::TYPE) -> i32 {\n        return h.FIELD;\n    };\n    return f(o);\n}\n", "let a := 1;"},
+			{"method-nested-let-shadows-receiver", "fn (h: &Holder) viaBlock(o: " + al + "::TYPE) -> i32 {\n    if h.N > -100 {\n        let h := o;\n        return h.FIELD;\n    }\n    return 0;\n}\n", "let a := 1;"},
+			{"method-non-receiver-param", "fn (h: &Holder) viaParam(o: " + al + "::TYPE) -> i32 {\n    return o.FIELD;\n}\n", "let a := 1;"},
 		}
-		for _, lowerCase := range []bool{true, false} {
-			f, cs := "X", "upper"
-			if lowerCase {
-				f, cs = "y", "lower"
-			}
-			for _, st := range fieldSites {
-				body := "let p := " + al + "::MkPub();\n    " + strings.ReplaceAll(st.stmt, "FIELD", f)
-				add(fmt.Sprintf("field|%s|%s", cs, st.name), strings.ReplaceAll(st.top, "FIELD", f), body, lowerCase, true)
+		// two struct types: plain fields, and fields that share their name with a method of the type
+		for _, sv := range []struct{ tag, typ, mk, lower, upper string }{{"field", "Pub", "MkPub", "y", "X"}, {"field-named-like-a-method", "Dup", "MkDup", "cnt", "Val"}} {
+			for _, lowerCase := range []bool{true, false} {
+				f, cs := sv.upper, "upper"
+				if lowerCase {
+					f, cs = sv.lower, "lower"
+				}
+				rep := strings.NewReplacer("FIELD", f, "TYPE", sv.typ, "MKFN", sv.mk)
+				for _, st := range fieldSites {
+					body := "let p := " + al + "::" + sv.mk + "();\n    " + rep.Replace(st.stmt)
+					add(fmt.Sprintf("%s|%s|%s", sv.tag, cs, st.name), rep.Replace(st.top), body, lowerCase, true)
+				}
 			}
 		}
 		// struct literals may initialise private fields (must be accepted)
@@ -300,7 +318,7 @@ fn (l: &'Loc) setViaReceiver(v: i32) {
     l.FIELD += 1;
     l.FIELD++;
 }
-`
+NAMESAKE`
 	sameSites := []c12Site{
 		{"plain-fn-read", "fn plain(l: &Loc) -> i32 {\n    return l.FIELD;\n}\n", "let a := 1;"},
 		{"plain-fn-write", "fn plainW(l: &'Loc) {\n    l.FIELD = 3;\n}\n", "let a := 1;"},
@@ -314,32 +332,41 @@ fn (l: &'Loc) setViaReceiver(v: i32) {
 		{"other-method-closure-param-shadows-receiver", "fn (o: &Other) spy2(l: &Loc) -> i32 {\n    let f := fn(o: &Loc) -> i32 {\n        return o.FIELD;\n    };\n    return f(l);\n}\n", "let a := 1;"},
 		{"other-method-nested-let-shadows-receiver", "fn (o: &Other) spy3(l: &Loc) -> i32 {\n    if l.Pubf > -100 {\n        let o := l;\n        return o.FIELD;\n    }\n    return 0;\n}\n", "let a := 1;"},
 	}
-	for _, lowerCase := range []bool{true, false} {
-		f, cs := "Pubf", "upper"
-		if lowerCase {
-			f, cs = "privf", "lower"
-		}
-		for _, st := range sameSites {
-			top := strings.ReplaceAll(local+"\n"+st.top, "FIELD", f)
-			body := strings.ReplaceAll(st.stmt, "FIELD", f)
-			for _, cx := range c12Contexts {
-				if st.top != "" && cx.name != "fn-body" {
-					continue
+	for _, namesake := range []bool{false, true} {
+		for _, lowerCase := range []bool{true, false} {
+			f, cs := "Pubf", "upper"
+			if lowerCase {
+				f, cs = "privf", "lower"
+			}
+			loc, tag := strings.ReplaceAll(local, "NAMESAKE", ""), "field"
+			if namesake { // the type also has a method with the field's name
+				loc, tag = strings.ReplaceAll(local, "NAMESAKE", "\nfn (l: &Loc) FIELD() -> i32 {\n    return l.FIELD;\n}\n"), "field-named-like-a-method"
+			}
+			for _, st := range sameSites {
+				top := strings.ReplaceAll(loc+"\n"+st.top, "FIELD", f)
+				body := strings.ReplaceAll(st.stmt, "FIELD", f)
+				for _, cx := range c12Contexts {
+					if st.top != "" && cx.name != "fn-body" {
+						continue
+					}
+					if namesake && cx.name != "fn-body" && cx.name != "closure" {
+						continue
+					}
+					files := map[string]string{"main.fer": c12Main("", top, cx.wrap(body), false)}
+					out = append(out, c12Case{id: fmt.Sprintf("same-module|%s|%s|%s|%s", tag, cs, st.name, cx.name), files: files, mustFail: lowerCase})
 				}
-				files := map[string]string{"main.fer": c12Main("", top, cx.wrap(body), false)}
-				out = append(out, c12Case{id: fmt.Sprintf("same-module|field|%s|%s|%s", cs, st.name, cx.name), files: files, mustFail: lowerCase})
 			}
 		}
 	}
 	// receiver access itself must be accepted
-	out = append(out, c12Case{id: "same-module|field|receiver-access", files: map[string]string{"main.fer": c12Main("", strings.ReplaceAll(local, "FIELD", "privf"), "let lo: Loc = { .Pubf = 1, .privf = 2 };\n    lo.setViaReceiver(3);\n    takeI(lo.viaReceiver());", false)}, mustFail: false})
+	out = append(out, c12Case{id: "same-module|field|receiver-access", files: map[string]string{"main.fer": c12Main("", strings.NewReplacer("FIELD", "privf", "NAMESAKE", "").Replace(local), "let lo: Loc = { .Pubf = 1, .privf = 2 };\n    lo.setViaReceiver(3);\n    takeI(lo.viaReceiver());", false)}, mustFail: false})
 	return out
 }
 
 func checkC12(c *Ctx) error {
 	r := c.R
 	r.Exhaustive = true
-	r.Rule = "finite catalogue enumerated completely: symbol kind {const, variable, function, struct type, enum type, struct field} x case {lowercase twin, uppercase twin} x access site (value use, call, function value, type annotation, parameter/return/receiver-free type positions, cast target, struct literal type, array/optional/reference/result element type, enum variant chain, match pattern, field read/write/compound/++/borrow/through references) x context {function body, method body, if, while, match arm, closure} x import shape {direct, chain with alias, diamond through a sub-directory}; plus same-module field access outside the receiver. Lowercase => the real compiler must reject, uppercase twin in the identical position => must accept. non-trivial = a distinct project whose verdict matched"
+	r.Rule = "finite catalogue enumerated completely: symbol kind {const, variable, function, struct type, enum type, struct field} x case {lowercase twin, uppercase twin} x access site (value use, call, function value, type annotation, parameter/return/receiver-free type positions, cast target, struct literal type, array/optional/reference/result element type, enum variant chain, match pattern, field read/write/compound/++/borrow/through references) x context {function body, method body, if, while, match arm, closure} x import shape {direct, chain with alias, diamond through a sub-directory}; plus same-module field access outside the receiver; every field site also for a field that shares its name with a method of the type. Lowercase => the real compiler must reject, uppercase twin in the identical position => must accept. non-trivial = a distinct project whose verdict matched"
 	r.Assumptions = []string{"private methods and enum variants are not part of the property's list and are not asserted", "writes to another module's exported variable are not asserted"}
 	cases := c12Cases()
 	tcs := make([]TC, len(cases))
